@@ -55,4 +55,9 @@ PROPS = {
         "rule": "C01-style programs (all gateway kinds, loops, sub-processes, conditional tasks) with some tasks never answered; fault = context cancellation when the k-th trace has been observed (k drawn in 1..90, or only after the instance came to rest); after the cancel the simulator runs to quiescence and the exact live-goroutine table, Tracer().Done(), subscriber channel closure, waiter returns and late TaskTraces are checked; distinct = schedule hash; non-trivial = cancel fired and a context switch",
         "oracle": "exact live-goroutine table of the simulator + tracer/subscriber/waiter shutdown observations",
     },
+    "C09": {
+        "level": "exploration", "quick_s": 35, "thorough_s": 900, "thorough_seeds": 4,
+        "rule": "(a) pkg/tracing alone: 1..8 sender goroutines x 1..6 traces each, 1..4 subscribers with buffer 0..4 that subscribe late, consume lazily and unsubscribe after k traces or stay until termination, optional relay; (b) engine runs of C01-style programs with 2..3 subscribers of the process tracer: causality grammar (flows announced before they appear, visit before leave, nothing after termination) and identical sequences; distinct = schedule hash; non-trivial = >1 subscriber (a) or a forking run (b), with a context switch",
+        "oracle": "history checks over stamped Send/Subscribe/Unsubscribe/receive events; causality grammar over the engine's trace stream",
+    },
 }
